@@ -224,8 +224,12 @@ func (p *Parser) ParseReader(r io.Reader, args ...any) (data any, err error) {
 	}
 	var skip int
 	// Skip BOM if present.
-	if 3 < len(buf) && buf[0] == 0xEF && buf[1] == 0xBB && buf[2] == 0xBF {
-		skip = 3
+	if 3 < len(buf) && buf[0] == 0xEF {
+		if buf[1] == 0xBB && buf[2] == 0xBF {
+			skip = 3
+		} else { // the same as Parse
+			return nil, fmt.Errorf("expected BOM at 1:3")
+		}
 	}
 	for {
 		if 0 < skip {
